@@ -9,6 +9,7 @@ import (
 	"encoding/json"
 	"fmt"
 	"runtime"
+	"strings"
 	"sync"
 
 	modbus "github.com/aldas/go-modbus-client"
@@ -153,19 +154,23 @@ type local struct{ states, transitions, histories, ops int64 }
 
 func payloads() [][]byte {
 	var out [][]byte
-	for n := 1; n <= 6; n++ {
+	for _, n := range []int{1, 2, 3, 4, 5, 6, 33, 40, 125} {
 		pos := make([]byte, 2*n)
 		txt := make([]byte, 2*n)
 		inc := make([]byte, 2*n)
 		ones := make([]byte, 2*n)
 		for i := range pos {
 			pos[i] = byte(i*29 + 0x41)
-			txt[i] = byte('A' + i)
+			txt[i] = byte('A' + i%26)
 			inc[i] = byte(i + 1)
 			ones[i] = 0xFF
 		}
 		if n >= 2 {
 			txt[3] = 0 // NUL inside
+		}
+		if n > 6 {
+			out = append(out, pos, txt) // long windows: two patterns (they exist for the long-string / many-field paths)
+			continue
 		}
 		out = append(out, pos, txt, inc, ones)
 	}
@@ -264,6 +269,106 @@ func explore(payload []byte, start uint16, depth int, opFilter func(i int) bool,
 	}
 }
 
+// fieldOrder: "performing the reads in a different order yields the same results" for field extraction - every field
+// of every ordered pair / triple of field definitions over one response must come out exactly as it does when it is
+// extracted alone from a pristine response (so neither an earlier field nor the order of the list can matter).
+func fieldOrder(thorough bool, res *ev.Result) (lists, fieldsChecked int64) {
+	type fd struct {
+		name string
+		f    modbus.Field
+	}
+	orders := []packet.ByteOrder{0, packet.BigEndianLowWordFirst, packet.LittleEndian, packet.LittleEndianLowWordFirst, packet.BigEndianHighWordFirst}
+	for _, n := range []int{4, 40} {
+		payload := make([]byte, 2*n)
+		for i := range payload {
+			payload[i] = byte(i*37 + 0x41)
+		}
+		const start = 200
+		var alpha []fd
+		add := func(name string, f modbus.Field) {
+			f.Name, f.ServerAddress, f.UnitID = name, "s", 1
+			alpha = append(alpha, fd{name, f})
+		}
+		for _, off := range []uint16{0, 1} {
+			add(fmt.Sprintf("u16@%d", off), modbus.Field{Address: start + off, Type: modbus.FieldTypeUint16})
+			add(fmt.Sprintf("i16@%d", off), modbus.Field{Address: start + off, Type: modbus.FieldTypeInt16})
+			add(fmt.Sprintf("bit@%d", off), modbus.Field{Address: start + off, Type: modbus.FieldTypeBit, Bit: 11})
+			add(fmt.Sprintf("byte@%d", off), modbus.Field{Address: start + off, Type: modbus.FieldTypeByte, FromHighByte: off == 0})
+			for _, o := range orders {
+				add(fmt.Sprintf("u32/%d@%d", o, off), modbus.Field{Address: start + off, Type: modbus.FieldTypeUint32, ByteOrder: o})
+				add(fmt.Sprintf("f32/%d@%d", o, off), modbus.Field{Address: start + off, Type: modbus.FieldTypeFloat32, ByteOrder: o})
+				if off == 0 {
+					add(fmt.Sprintf("u64/%d@%d", o, off), modbus.Field{Address: start + off, Type: modbus.FieldTypeUint64, ByteOrder: o})
+					add(fmt.Sprintf("str4/%d@%d", o, off), modbus.Field{Address: start + off, Type: modbus.FieldTypeString, Length: 4, ByteOrder: o})
+					if n >= 40 {
+						add(fmt.Sprintf("str70/%d@%d", o, off), modbus.Field{Address: start + off, Type: modbus.FieldTypeString, Length: 70, ByteOrder: o})
+					}
+				}
+			}
+		}
+		mkResp := func() *packet.ReadHoldingRegistersResponseTCP {
+			p := append([]byte(nil), payload...)
+			return &packet.ReadHoldingRegistersResponseTCP{ReadHoldingRegistersResponse: packet.ReadHoldingRegistersResponse{UnitID: 1, RegisterByteLen: uint8(len(p)), Data: p}}
+		}
+		render := func(v modbus.FieldValue) string { return fmt.Sprintf("%#v err=%v", v.Value, v.Error) }
+		solo := map[string]string{}
+		for _, a := range alpha {
+			br := modbus.BuilderRequest{ServerAddress: "s", UnitID: 1, StartAddress: start, Fields: modbus.Fields{a.f}}
+			vs, err := br.ExtractFields(mkResp(), true)
+			if err != nil || len(vs) != 1 {
+				solo[a.name] = fmt.Sprintf("ERR %v", err)
+				continue
+			}
+			solo[a.name] = render(vs[0])
+		}
+		check := func(list []fd) {
+			lists++
+			fs := make(modbus.Fields, len(list))
+			names := make([]string, len(list))
+			for i, a := range list {
+				fs[i] = a.f
+				names[i] = a.name
+			}
+			br := modbus.BuilderRequest{ServerAddress: "s", UnitID: 1, StartAddress: start, Fields: fs}
+			resp := mkResp()
+			vs, err := br.ExtractFields(resp, true)
+			if err != nil || len(vs) != len(list) {
+				return
+			}
+			for i, v := range vs {
+				fieldsChecked++
+				if got := render(v); got != solo[v.Field.Name] {
+					res.Violate(ev.Violation{Check: "purity", Kind: "field-value-depends-on-other-fields", Attrs: map[string]any{"victim_default_order": v.Field.ByteOrder == 0},
+						Msg:  fmt.Sprintf("window of %d registers, fields %v extracted together: field %s (position %d) = %s, extracted alone = %s", n, names, v.Field.Name, i, got, solo[v.Field.Name]),
+						Case: Case{Payload: hex.EncodeToString(payload), Start: start, History: names}})
+					return
+				}
+			}
+			if !bytesEq(resp.Data, payload) {
+				res.Violate(ev.Violation{Check: "purity", Kind: "state-changed", Attrs: map[string]any{"op": "ExtractFields"},
+					Msg:  fmt.Sprintf("window of %d registers: extracting fields %v changed the payload to %x", n, names, resp.Data),
+					Case: Case{Payload: hex.EncodeToString(payload), Start: start, History: names}})
+			}
+		}
+		for _, a := range alpha {
+			for _, b := range alpha {
+				check([]fd{a, b})
+				if thorough || (a.f.ByteOrder != 0) != (b.f.ByteOrder != 0) {
+					for k, c := range alpha {
+						if !thorough && k%4 != 0 {
+							continue
+						}
+						check([]fd{a, b, c})
+					}
+				}
+			}
+		}
+	}
+	return
+}
+
+func bytesEq(a, b []byte) bool { return string(a) == string(b) }
+
 func opClass(name string) string {
 	for i := 0; i < len(name); i++ {
 		if name[i] == '(' || name[i] == '@' {
@@ -317,6 +422,11 @@ func run(tier string, shard, nsh int, res *ev.Result) {
 		tot.ops += lc.ops
 		mu.Unlock()
 	})
+	nl, nf := fieldOrder(thorough, res)
+	res.Add("field_lists", nl)
+	res.Add("field_values_compared", nf)
+	tot.ops += nf
+	res.Axis("field lists for order independence", "ordered pairs (and triples) over ~50 field definitions x windows of 4 and 40 registers; each value compared with its solo extraction", nl)
 	res.Add("states", tot.states)
 	res.Add("transitions", tot.transitions)
 	res.Add("histories", tot.histories)
@@ -333,6 +443,10 @@ func run(tier string, shard, nsh int, res *ev.Result) {
 func replay(check string, raw json.RawMessage, res *ev.Result) {
 	var c Case
 	json.Unmarshal(raw, &c)
+	if len(c.History) > 0 && strings.Contains(c.History[0], "@") && strings.Contains(c.History[0], "/") || (len(c.History) > 0 && c.Start == 200) {
+		fieldOrder(true, res) // the field-order cases are cheap: re-run them all
+		return
+	}
 	p, _ := hex.DecodeString(c.Payload)
 	all := ops(len(p) / 2)
 	byName := map[string]op{}
